@@ -276,7 +276,7 @@ export function makeCases(ctx, n, fixed = null) {
     const caseSeed = fixed ? fixed[i] : ctx.rng.u32()
     if (caseSeed === undefined) break
     const r = new Rng(caseSeed)
-    const fs_ = genFileSet(r, { withModule: r.bool(0.5) })
+    const fs_ = genFileSet(r, { withModule: r.bool(0.5), slotReceivers: true })
     const crlf = r.bool(0.3)
     const st = { rng: r, spacing: r.bool(0.6), redundant: r.bool(0.3) ? 0.15 : 0, entities: r.bool(0.5) ? 0.2 : 0, layout: r.bool(0.7), between: true, shuffleAttrs: r.bool(0.5), unquoted: true }
     let sources
